@@ -83,7 +83,7 @@ class GroupBCD(BaseSolver):
             lipschitz = datafit.get_lipschitz(X, y)
 
         all_groups = np.arange(n_groups)
-        p_objs_out = np.zeros(self.max_iter)
+        p_objs_out = []
         stop_crit = np.inf  # prevent ref before assign when max_iter == 0
         accelerator = AndersonAcceleration(K=5)
 
@@ -110,7 +110,7 @@ class GroupBCD(BaseSolver):
             stop_crit = max(np.max(opt), intercept_opt)
 
             if self.verbose:
-                p_obj = datafit.value(y, w, Xw) + penalty.value(w)
+                p_obj = datafit.value(y, w, Xw) + penalty.value(w[:n_features])
                 print(
                     f"Iteration {t+1}: {p_obj:.10f}, "
                     f"stopping crit: {stop_crit:.2e}"
@@ -150,8 +150,9 @@ class GroupBCD(BaseSolver):
                     Xw_acc = Xw + X[:, supp] @ diff[supp]
                     if self.fit_intercept:
                         Xw_acc += diff[-1]
-                    p_obj = datafit.value(y, w, Xw) + penalty.value(w)
-                    p_obj_acc = datafit.value(y, w_acc, Xw_acc) + penalty.value(w_acc)
+                    p_obj = datafit.value(y, w, Xw) + penalty.value(w[:n_features])
+                    p_obj_acc = (datafit.value(y, w_acc, Xw_acc)
+                                 + penalty.value(w_acc[:n_features]))
 
                     if p_obj_acc < p_obj:
                         w[:], Xw[:] = w_acc, Xw_acc
@@ -176,7 +177,7 @@ class GroupBCD(BaseSolver):
                     stop_crit_in = np.max(opt_ws)
 
                     if max(self.verbose - 1, 0):
-                        p_obj = datafit.value(y, w, Xw) + penalty.value(w)
+                        p_obj = datafit.value(y, w, Xw) + penalty.value(w[:n_features])
                         print(
                             f"Epoch {epoch + 1}, objective {p_obj:.10f}, "
                             f"stopping crit {stop_crit_in:.2e}"
@@ -184,10 +185,10 @@ class GroupBCD(BaseSolver):
 
                     if stop_crit_in <= 0.3 * stop_crit:
                         break
-            p_obj = datafit.value(y, w, Xw) + penalty.value(w)
-            p_objs_out[t] = p_obj
+            p_obj = datafit.value(y, w, Xw) + penalty.value(w[:n_features])
+            p_objs_out.append(p_obj)
 
-        return w, p_objs_out, stop_crit
+        return w, np.asarray(p_objs_out), stop_crit
 
     def custom_checks(self, X, y, datafit, penalty):
         check_group_compatible(datafit)
